@@ -24,7 +24,12 @@ def fasta_bytes(contigs, width=60, eol=b'\n', final_newline=True, names=None):
 
 def write_fasta(path, contigs, width=60, eol=b'\n', final_newline=True, gz=False, names=None):
 	data = fasta_bytes(contigs, width, eol, final_newline, names)
-	if gz:
+	if gz == 'multi':
+		# several gzip members in one file (what bgzip / `cat a.gz b.gz` produce): member boundaries at arbitrary byte positions
+		cuts = sorted({len(data) // 3, (2 * len(data)) // 3, min(50, len(data))}) if len(data) > 3 else []
+		parts = [data[a:b] for a, b in zip([0] + cuts, cuts + [len(data)])]
+		data = b''.join(gzip.compress(p, mtime=0) for p in parts)
+	elif gz:
 		data = gzip.compress(data, mtime=0)
 	with open(path, 'wb') as f:
 		f.write(data)
